@@ -156,45 +156,50 @@ class GizaYamlDomain:
         self,
         path: n.FileId,
         optional_text: Optional[str] = None,
-    ) -> Iterable[Tuple[Page, Sequence[Diagnostic]]]:
-        """Update an individual Giza file."""
-        file_id = path.name
+    ) -> Iterable[Tuple[n.FileId, List[Page], Sequence[Diagnostic]]]:
+        """Update an individual Giza file: re-read it, then regenerate its pages and the pages
+        of the files which inherit from it. Yields, for each regenerated file, its file ID, the
+        pages it now generates, and its diagnostics."""
         prefix = get_giza_category(path)
         giza_category = self.yaml_mapping[prefix]
-        needs_rebuild = set((file_id,)).union(
-            *(
-                category.dg.predecessors(file_id)
-                for category in self.yaml_mapping.values()
+        artifacts, text, parse_diagnostics = giza_category.parse(path, optional_text)
+        giza_category.add(path, text, artifacts, parse_diagnostics)
+
+        file_id = path.name
+        needs_rebuild = [file_id]
+        if file_id in giza_category.dg:
+            needs_rebuild.extend(
+                dependent
+                for dependent in giza_category.dg.predecessors(file_id)
+                if dependent != file_id
             )
-        )
         logger.debug("needs_rebuild: %s", ",".join(needs_rebuild))
-        for file_id in needs_rebuild:
-            file_diagnostics: List[Diagnostic] = []
+
+        for rebuild_id in needs_rebuild:
             try:
-                giza_node = giza_category.reify_file_id(file_id)
+                giza_node = giza_category.reify_file_id(rebuild_id)
             except KeyError:
-                logging.warn("No file found in registry: %s", file_id)
+                logging.warn("No file found in registry: %s", rebuild_id)
                 continue
 
-            steps, text, parse_diagnostics = giza_category.parse(path, optional_text)
-            file_diagnostics.extend(parse_diagnostics)
-
-            def create_page(filename: str) -> Tuple[Page, EmbeddedRstParser]:
+            def create_page(
+                filename: str, giza_node: nodes.GizaFile[Any] = giza_node
+            ) -> Tuple[Page, EmbeddedRstParser]:
                 page = Page.create(
                     giza_node.path,
                     filename,
-                    text,
-                    n.Root((-1,), [], self.config.get_fileid(n.FileId(filename)), {}),
+                    giza_node.text,
+                    n.Root((-1,), [], giza_node.path, {}),
                 )
                 return (
                     page,
-                    self.rst_parser_factory(self.config, page, file_diagnostics),
+                    self.rst_parser_factory(
+                        self.config, page, giza_node.parse_diagnostics
+                    ),
                 )
 
-            giza_category.add(path, text, steps, file_diagnostics)
             pages = giza_category.to_pages(giza_node.path, create_page, giza_node)
-            path = giza_node.path
-            yield from ((page, giza_node.diagnostics) for page in pages)
+            yield giza_node.path, pages, giza_node.diagnostics
 
     def is_known_yaml(self, fileid: n.FileId) -> bool:
         """Check if a given fileid belongs to a known giza category."""
